@@ -23,6 +23,7 @@ var histOps = []histOp{
 	{"ForEachVariants", opForEachVariants}, {"Set", opSet}, {"Unset", opUnset}, {"Merge", opMerge}, {"Pluck", opPluck},
 	{"KeysValues", opKeysValues}, {"ObjMap", opObjMap}, {"Clone", opClone}, {"SetTF", opSetTF}, {"UnsetTF", opUnsetTF},
 	{"GetTF", opGetTF}, {"Export", opExport}, {"MutateNative", opMutateNative}, {"Import", opImport}, {"Burst", opBurst},
+	{"TimePasses", opTimePasses},
 }
 
 // vocab: the smallest operation mix that drives each property (DESIGN §2 "Attribution").
@@ -64,6 +65,9 @@ func runHist(ch *simrt.Chooser, opt Options) RunResult {
 	weights := vocab[opt.Prop]
 	if weights == nil {
 		weights = vocab["C05"]
+	}
+	if _, ok := weights["TimePasses"]; !ok {
+		weights["TimePasses"] = 1
 	}
 	var table []histOp
 	var cum []int
@@ -135,6 +139,7 @@ func runHist(ch *simrt.Chooser, opt Options) RunResult {
 	for k, v := range out.Probes {
 		res.Counters["probe:sched-"+k] += v
 	}
+	res.Counters["sched:virtual-time-s"] += int(out.VirtualNs / 1e9)
 	switch out.Kind {
 	case simrt.OutOK:
 		res.Failures = h.fails
